@@ -114,9 +114,9 @@ func (b *burstRun) check(round, phase int, lead string, answers []burstAnswer, d
 			if lead != "" {
 				how = fmt.Sprintf("all %d goroutines sent %q at once", len(answers), lead)
 			}
-			b.out.Mismatches = append(b.out.Mismatches, mismatch{Scenario: b.tag, What: "burst:wrong-answer", Name: a.name, Want: clip(want), Got: clip(a.got),
-				Request: fmt.Sprintf("round %d (objects constructed for this round, nothing served before the burst), phase %d (%s), goroutine %d: %s",
-					round, phase, how, g, describe(a))})
+			b.out.Mismatches = append(b.out.Mismatches, newMismatch(b.tag, "burst:wrong-answer", a.name, want, a.got,
+				fmt.Sprintf("round %d (objects constructed for this round, nothing served before the burst), phase %d (%s), goroutine %d: %s",
+					round, phase, how, g, describe(a))))
 		}
 	}
 }
